@@ -13,7 +13,24 @@ ASSUMPTIONS = [
 TRUSTED_EXTRA = []
 
 
+def _links_stale(hist, i):
+    """role assignments were changed while auto_build_role_links was off and no rebuild (build_role_links, a successful
+    load_policy or clear_policy with the flag on) has happened since: by design of the flag the links lag behind"""
+    off = dirty = False
+    for o in hist[: i + 1]:
+        if o[0] == "autobuild":
+            off = not o[1]
+        elif o[0] in ("build", "setrm") or (o[0] == "load" and o[1] is None and not off) or (o[0] == "clear" and not off):
+            dirty = False
+        elif off and o[0] not in ("save", "load", "autosave", "autonotify", "setstore") and not (len(o) > 1 and o[1] == "p"):
+            dirty = True
+    return dirty
+
+
 def judge(res, cfg, hist, i, op, rec, model, case, queries):
+    if _links_stale(hist, i):
+        res.count("window:auto-build-off:links-lag-behind (tie only)")
+        return True
     # the theorem `observational`: the model answers like a fresh model
     for q, m, s in zip(queries, model["answers"], model["fresh"]):
         if m != s:
@@ -69,6 +86,17 @@ def gen(ctx, deep):
                     if a[0] != "clear":  # clear_policy leaves the store behind: the reload would not be of a mirrored store
                         jobs.append((cfg, [a] + window + [b]))
                     jobs.append((cfg, [a, ("setrm",), b]))
+        # the bulk-edit sequence: automatic link building off, role assignments changed (the links lag behind, by design),
+        # saved or not, the flag on again and a reload: from there on everything must again be what a fresh enforcer says
+        gops = [o for o in ops if len(o) > 1 and o[1] in ("g", "g2")]
+        for init in inits[1:]:
+            cfg = ec.Config(shape, adapter=True, watcher=None, initial=init)
+            for a in rng.sample(gops, min(len(gops), 10 if deep else 6)):
+                for b in rng.sample(gops, min(len(gops), 6 if deep else 3)):
+                    c = rng.choice(ops)
+                    jobs.append((cfg, [("autobuild", False), a, b, ("save",), ("autobuild", True), ("load", None), c]))
+                    jobs.append((cfg, [("autobuild", False), a, b, ("autobuild", True), ("load", None), c]))
+                    jobs.append((cfg, [("autobuild", False), a, b, ("autobuild", True), ("build",), c]))
         # a reload that fails while the links are being rebuilt (a malformed grouping line after a new, valid one) or while
         # the adapter is delivering: the policy that stays in place must still be the one the links reflect
         short = G[0][:-1]
